@@ -629,6 +629,10 @@ func (c *Conn) Write(payload []byte) (int, error) {
 	if errors.Is(err, context.Canceled) && errors.Is(context.Cause(ctx), context.DeadlineExceeded) {
 		return len(payload), dtlserrors.ErrDeadlineExceeded
 	}
+	if errors.Is(err, context.Canceled) && c.isConnectionClosed() {
+		// A Write interrupted by Close reports the closure.
+		return len(payload), ErrConnClosed
+	}
 
 	return len(payload), err
 }
@@ -2832,6 +2836,14 @@ func (c *Conn) handshake(ctx context.Context, start handshakeStart) error {
 		cancel()
 		handshakeLoopsFinished.Wait()
 
+		if errors.Is(err, context.Canceled) && ctx.Err() == nil && c.isConnectionClosed() &&
+			!c.isHandshakeCompletedSuccessfully() {
+			// Close cancelled the handshake (the caller's context is still
+			// live): report the closure, not the cancellation it is
+			// implemented with.
+			err = ErrConnClosed
+		}
+
 		return c.translateHandshakeCtxError(err)
 	case <-ctx.Done():
 		cancelRead()
@@ -2889,7 +2901,6 @@ func (c *Conn) translateHandshakeCtxError(err error) error {
 	if errors.Is(err, context.Canceled) && c.isHandshakeCompletedSuccessfully() {
 		return nil
 	}
-
 	return fmt.Errorf("handshake failed: %w", err)
 }
 
